@@ -4,3 +4,5 @@ open Just.C11
 #print axioms main_loop_progress
 #print axioms step_never_grows
 #print axioms lexer_error_never_invalid_line
+#print axioms lexer_asserts_hold
+#print axioms main_loop_idle
